@@ -222,6 +222,7 @@ func NewWorld(prog *load.Program, specDir string) (*World, error) {
 		w.Events = append(w.Events, f.Events...)
 	}
 	w.findImmutableGlobals()
+	w.TypesPkg("io") // build the package index before units run concurrently
 	return w, nil
 }
 
@@ -531,6 +532,8 @@ type Engine struct {
 	pureMemo     map[string]Value
 	sawCallSite  map[*spec.CallSite]bool
 	nonNilDone   map[string]bool
+	dynDone      map[string]bool
+	zeroArrDone  map[string]bool
 }
 
 func newEngine(w *World, unit string) *Engine {
@@ -539,7 +542,7 @@ func newEngine(w *World, unit string) *Engine {
 		typeTags: map[string]int{}, heapKeys: map[string]heapKey{}, unitName: unit,
 		globalsDone: map[*ssa.Global]bool{}, maxPaths: 4096, noteSeen: map[string]bool{}, trustedUsed: map[string]bool{},
 		fnConsts: map[string]bool{}, implIfaces: map[string]bool{}, fnIDs: map[string]int{}, cells: map[*ssa.Alloc]Value{},
-		pureMemo: map[string]Value{}, sawCallSite: map[*spec.CallSite]bool{}, nonNilDone: map[string]bool{},
+		pureMemo: map[string]Value{}, sawCallSite: map[*spec.CallSite]bool{}, nonNilDone: map[string]bool{}, dynDone: map[string]bool{}, zeroArrDone: map[string]bool{},
 	}
 }
 
@@ -582,7 +585,45 @@ func (e *Engine) globalFacts(g *ssa.Global, v Value) {
 	}
 	if e.w.allocInit(g) {
 		e.nonNilFact(g.Pkg.Pkg.Path()+"."+g.Name(), v)
+		if dt := e.w.initDynType(g); dt != nil && v.L[0].Sort == smt.Iface {
+			e.ctx.Axiom(smt.Eq(e.dyn(v.L[0]), e.typeTag(dt)))
+		}
 	}
+}
+
+// errorStringType is *errors.errorString, the dynamic type of errors.New results.
+func (w *World) errorStringType() types.Type {
+	if p := w.TypesPkg("errors"); p != nil {
+		if tn, ok := p.Scope().Lookup("errorString").(*types.TypeName); ok {
+			return types.NewPointer(tn.Type())
+		}
+	}
+	return nil
+}
+
+// initDynType returns the dynamic type init stores into an interface-typed global.
+func (w *World) initDynType(g *ssa.Global) types.Type {
+	initf := g.Pkg.Func("init")
+	if initf == nil {
+		return nil
+	}
+	for _, b := range initf.Blocks {
+		for _, ins := range b.Instrs {
+			st, ok := ins.(*ssa.Store)
+			if !ok || st.Addr != ssa.Value(g) {
+				continue
+			}
+			switch x := st.Val.(type) {
+			case *ssa.MakeInterface:
+				return x.X.Type()
+			case *ssa.Call:
+				if f := x.Call.StaticCallee(); f != nil && f.Pkg != nil && f.Pkg.Pkg.Path() == "errors" && f.Name() == "New" {
+					return w.errorStringType()
+				}
+			}
+		}
+	}
+	return nil
 }
 
 // nonNilFact records that a sentinel value is non-nil and distinct from the other sentinels.
